@@ -54,7 +54,8 @@ class C14(PropBase):
     rule = ("all 32 combinations of the five -i groups x table states of 12 aircraft built from frames so that every column occurs "
             "filled and blank (negative rates, extreme in-range values); the text printed by the real Planes::print and "
             "LegendHeaders (stdout of the harness) against the model's rendering and against an independent rendering of the "
-            "dumped row state, cell by cell at the header's column offsets; widths of header, separator and rows. Non-trivial = "
+            "dumped row state, cell by cell at the header's column offsets; widths of header, separator and rows; the table the reader thread itself prints "
+            "(display on) for -i given once and several times. Non-trivial = "
             "a printed row with at least 6 filled columns; distinct by (group set, row text).")
     assumptions = ["std::fmt of floats is not modelled: float cells compared numerically to the last printed digit"]
 
@@ -147,6 +148,37 @@ class C14(PropBase):
                             return
                     if filled >= 6:
                         rep.nontriv((groups, t))
+        # the table as the reader itself prints it (display on, a refresh after every frame): the groups follow the letters of
+        # ALL occurrences of -i (a+w stands for -i a -i w)
+        import re as _re
+        for spec in ["a+w", "ae+ew", "e+A", "s+x", "a+A+e+w+s", "aw+aw", "aAews", "x", "w", "A+s"]:
+            a1 = 0x480100
+            frames = [F.df11(5, a1, 0), F.df17(5, a1, F.me_ident(4, 3, F.callsign_codes("GRP1"))), F.df5(0, 0, 0, F.id13_of_squawk(1, 2, 3, 4), a1)]
+            ops = ["reset", gen.cfg_op(show=1, update=-1, groups=spec, order="", delete_after=600)] + gen.seg(frames) + ["dump"]
+            impl, so, model = run.execute(ops, model=driver_ok)
+            rep.evaluations += 1; rep.traces += 1
+            m = _re.search(r"@@SEG \d+ BEGIN\n(.*?)\n@@SEG \d+ END", so, _re.S)
+            if not m:
+                raise core.Broken("reader display: segment markers missing in the harness output", so[-300:])
+            screens = [x for x in m.group(1).split("\x1b[2J\x1b[H\x1b[3J") if x.strip()]
+            table_screens = [x for x in screens if _re.match(r"\s*ICAO +RG ", x)]
+            if not table_screens:
+                self.fail(rep, f"-i {spec.split('+')}: the reader printed no table although the display is on", {"ops": ops})
+                return
+            lines = table_screens[-1].lstrip("\n").split("\n")
+            header = lines[0]
+            present = {n for n, _, _ in RC.header_cells(header)}
+            given = set(spec.replace("+", ""))
+            for letter, cols in (("A", ["ALT G", "ALT S", "BARO"]), ("s", ["TAS", "IAS", "MACH"]), ("a", ["RLL", "TAR"]),
+                                 ("w", ["TEMP", "WND", "WDR", "HUM", "PRES", "TB"]), ("e", ["VX", "DF", "TC", "V", "S", "PTH"])):
+                if (letter in given) != all(c in present for c in cols) or (letter not in given and any(c in present for c in cols)):
+                    self.fail(rep, f"-i {' -i '.join(spec.split('+'))}: group {letter!r} {'missing from' if letter in given else 'present in'} the table the reader prints (header {header!r})",
+                              {"ops": ops, "header": header, "groups": spec})
+                    return
+            if len(lines) > 2 and len(lines[1]) != len(header):
+                self.fail(rep, f"reader display: separator width {len(lines[1])} != header width {len(header)}", {"ops": ops})
+                return
+            rep.nontriv(("reader-display", spec))
         rep.exhaustive.append("all 32 combinations of the -i groups")
         rep.sample({"header": header, "row": rows_txt[0] if rows_txt else ""})
 
